@@ -203,6 +203,11 @@ func (c *Conn) SetWriteDeadline(t time.Time) error { return nil }
 
 // Inject queues a datagram for the serve loop.
 func (c *Conn) Inject(from net.Addr, data []byte) {
+	// like a real socket, hand the reader an address object of its own: whatever the node does to it must
+	// not alias the harness's notion of who sent the datagram
+	if ua, ok := from.(*net.UDPAddr); ok && ua != nil {
+		from = &net.UDPAddr{IP: append(net.IP(nil), ua.IP...), Port: ua.Port, Zone: ua.Zone}
+	}
 	c.mu.Lock()
 	c.inq = append(c.inq, in{from, append([]byte(nil), data...)})
 	c.cond.Signal()
